@@ -148,8 +148,13 @@ def gen_query(rng, lang):
 
 def gen_join(rng):
     pairs = [(V('a', 1), V('b', 1))]
-    if rng.random() < 0.25:
+    x = rng.random()
+    if x < 0.25:
         pairs.append((V('a', 2), V('b', 2)))
+    elif x < 0.4:
+        pairs = [(R('NR'), R('bNR'))]                 # record numbers as key components; the sides are swapped like any other pair
+    elif x < 0.5:
+        pairs.append((R(rng.choice(['NR', 'aNR', 'a.NR'])), R(rng.choice(['bNR', 'b.NR']))))
     return {'type': rng.choice(['inner', 'inner', 'left', 'strict']), 'pairs': pairs}
 
 
